@@ -765,6 +765,9 @@ class _Ipv6UnsupportedError(Exception):
     pass
 
 
+_UNIX_ROW_START = re.compile(r"\S+: \S+ \S+ \S+ \S+ \S+ +\d+(?: |\n|$)")
+
+
 class NetConnections:
     """A wrapper on top of /proc/net/* files, retrieving per-process
     and system-wide open connections (TCP, UDP, UNIX) similarly to
@@ -943,14 +946,29 @@ class NetConnections:
         """Parse /proc/net/unix files."""
         with open_text(file) as f:
             f.readline()  # skip the first line
+            # The path is printed raw and may contain line feeds: a
+            # line which does not start like a row ("Num: RefCount
+            # Protocol Flags Type St Inode") continues the path of
+            # the row before it.
+            lines = []
+            has_path = False
             for line in f:
+                m = _UNIX_ROW_START.match(line)
+                if m is None and has_path:
+                    lines[-1] += line
+                else:
+                    lines.append(line)
+                    has_path = m is not None and m.group().endswith(' ')
+            for line in lines:
                 # the path is the last field and may contain spaces,
                 # also in front: exactly one blank separates it from
                 # the inode
                 tokens = line.split(None, 6)
                 try:
                     _, _, _, _, type_, _, rest = tokens
-                    inode, _, path = rest.rstrip('\n').partition(' ')
+                    if rest.endswith('\n'):
+                        rest = rest[:-1]
+                    inode, _, path = rest.partition(' ')
                 except ValueError:
                     if ' ' not in line:
                         # see: https://github.com/giampaolo/psutil/issues/766
